@@ -20,7 +20,7 @@ def run(tier, seed):
     import gen_prog
     import refrun
     rnd = random.Random(seed * 83 + 16)
-    progs, srcs = refrun.gen_programs(seed + 161, 400 if tier == "quick" else 4000, 5, err_rate=0.35, features={"ext": True})
+    progs, srcs = refrun.gen_programs(seed + 161, 400 if tier == "quick" else 4000, 5, err_rate=0.35, features={"ext": True, "ext2": "half"})
     # one more kind of mistake, placed where the closure's own return type matters: a `return` of the wrong
     # type as the first statement of a closure (whose declared return type differs from what surrounds it)
     for p in progs:
